@@ -894,7 +894,16 @@ def clim_object_history(tier, rng, n_objects):
             continue
         with warnings.catch_warnings():
             warnings.simplefilter("ignore")
-            obj = qartod.ClimatologyConfig.convert(ad.config(base))
+            try:
+                obj = qartod.ClimatologyConfig.convert(ad.config(base))
+            except Exception as e:  # noqa: BLE001
+                fresh, _ = ad.impl(base)
+                if not str(fresh).startswith("R:"):
+                    fails.append({"kind": "predicate", "function": "climatology_test", "case": base, "impl": core.canon_exc(e),
+                                  "impl_list_of_dicts": fresh,
+                                  "clause": "building a ClimatologyConfig object from the members raised although the "
+                                            "same members given as a list of dicts are accepted"})
+                continue
             state0 = deep_state(obj)
             # series from other cases (other dates, other lengths), same configuration object
             others = [base] + [rng.choice(pool) for _ in range(3)]
